@@ -255,11 +255,11 @@ class C13(Check):
                     ops.append('peerread')
                 elif r < 0.88:
                     ops.append('peerwrite ' + hexs(data(rng, rng.randrange(1, 5))))
-                elif r < 0.92:
+                elif r < 0.91:
                     ops.append('read %d' % rng.choice([1, 2, 100]))
-                elif r < 0.95:
+                elif r < 0.93:
                     ops.append('tick')
-                elif r < 0.95 + react_rate:
+                elif r < 0.93 + react_rate:
                     cb = rng.choice(['onRead', 'onWrite', 'onClosed'])
                     inner = rng.choice(['read 100', 'read 1', 'suspend', 'resume', 'write %s %s' % (hexs(seq.take(2)), rng.choice(OUTCOMES_BENIGN)),
                                         'write %s full' % hexs(seq.take(1)), 'remove' if rng.random() < 0.3 else 'read 3', 'tick'])
